@@ -43,7 +43,7 @@ def run(rep):
     rep.bounds = {"dates": "1583..9999", "gmt": "[-12,12] with shifted value in range", "transit": "as in C01"}
     rep.assumptions += ["the +-10 s covariance of all seven clock times depends on the real ephemeris evaluated d hours apart and is outside the claim"]
     results = base.run_obligations(rep, [(jd.jd_gmt_shift, None), (jd.jd_formula, (1583, 9999)), (wiring.prayer_times_dt_wiring, False),
-                                         (wiring.prayer_times_dt_wiring, True), (transit.ra_deltas, None), (transit.dhuhr_transit, None)])
+                                         (wiring.prayer_times_dt_wiring, True), (transit.ra_deltas, None), (transit.dhuhr_transit, None), (wiring.astro_day_wiring, None)])
     if any(x["cands"] for x in results):
         found = {}
         for key, desc, case, obs in metamorphic():
@@ -56,6 +56,8 @@ def run(rep):
             c01.confirm(rep, [x for x in results if "JulianDay" not in x["name"]])
             if not rep.violations and not rep.inconclusive:
                 rep.inconclusive.append("solver counterexamples not reproduced natively")
+    from . import policyprop as _pp
+    _pp.purity_native(rep)
     rep.samples = [{"obligation": o["name"], "status": o["status"], "paths": o.get("paths")} for o in rep.obligations]
 
 
